@@ -451,3 +451,114 @@ def s_get_new_overload_tables(ctx):
 
 SCENARIOS.append(Scenario("C07.as_function.get_new_overload[tables]", s_get_new_overload_tables, F("_get_new_overload"), kind="bounded",
                           bound="function tables over overloads 1..3 of the function, an unnumbered overload and two unrelated functions (all 64 subsets)"))
+
+
+def s_apply_as_function(ctx):
+    """as_function=True: the matched nodes become the body of a new model-local function.  The function must import
+    every operator domain its (copied) nodes use — also when the match sits in a control-flow subgraph, whose own
+    import table is empty or partial — it is registered under a fresh (domain, name, overload), and the call node
+    carries that overload."""
+    import onnx_ir as ir
+    import onnx_ir.convenience as convenience
+    import onnxscript.optimizer
+    from pyvc.values import SInt
+    rr = _rr()
+    I = Interp(ctx)
+    kind = ["main graph", "function", "subgraph"][ctx.choose(3, "container")]
+    v_main, v_cont, v_cust = ctx.int("v_main_default"), ctx.int("v_container_default"), ctx.int("v_custom")
+    n0 = SObj(ir.Node, "matched0")
+    n1 = SObj(ir.Node, "matched1")
+    n0.fields.update(domain="", attributes={}, metadata_props={}, name="n0")
+    n1.fields.update(domain="custom", attributes={}, metadata_props={}, name="n1")
+    main = GraphLike([n0, n1] if kind == "main graph" else [], {})
+    main.opset_imports = {"": SInt(v_main), "custom": SInt(v_cust)}
+    main.initializers = {}
+    if kind == "main graph":
+        container = main
+    else:
+        container = GraphLike([n0, n1], {})
+        container.initializers = {}
+        # a function has its own complete import table; a subgraph has none of its own (only what an earlier rewrite added)
+        container.opset_imports = {"": SInt(v_cont), "custom": SInt(v_cust)} if kind == "function" else \
+            ({"new.domain": 1} if ctx.choose(2, "subgraph table holds only the replacement's domain") == 1 else {})
+    model = SObj(ir.Model, "model")
+    model.fields.update(graph=main, functions={})
+    rule = SObj(rr.RewriteRule, "rule")
+    call_node = SObj(ir.Node, "call_node")
+    call_node.fields.update(domain="new.domain", op_type="Fused", overload="", inputs=[Tok("x")], metadata_props={}, attributes={})
+    delta = SObj(rr.ReplacementSubgraph, "delta")
+    match = SObj(object, "match")
+    match.fields.update(nodes=[n1, n0], outputs=[Tok("old_out")])
+    delta.fields.update(match=match, new_nodes=[call_node], new_outputs=[Tok("new_out")], new_initializers=[])
+    fired = []
+
+    def try_rewrite(*a, **k):
+        raise AssertionError
+
+    def model_try(interp, m, g, node, verbose=None, tracer=None):
+        if node is n0 and g is container and not fired:
+            fired.append(node)
+            return delta
+        return None
+    I.models[try_rewrite] = model_try
+    rule.fields.update(try_rewrite=try_rewrite, remove_nodes=True, as_function=True, name="rule", graph_pre_visitor=None, graph_post_visitor=None)
+    rs = SObj(rr.RewriteRuleSet, "ruleset")
+    rs.fields.update(rules=[rule], remove_unused_nodes=False)
+    copied = []
+
+    def m_copy(interp, inputs, nodes, outputs):
+        copied.append((list(inputs), list(nodes), list(outputs)))
+        return [Tok("f_in")], [Tok("copy0"), Tok("copy1")], [Tok("f_out")]
+    I.models[rr._copy_for_function] = m_copy
+    I.models[rr._get_new_overload] = lambda interp, m, d, n: "7"
+    graphs = []
+
+    def m_graph(interp, inputs, outputs, nodes=(), opset_imports=None, **k):
+        g = SObj(ir.Graph, "fn_graph")
+        g.fields.update(inputs=inputs, outputs=outputs, nodes=list(nodes), opset_imports=dict(opset_imports or {}))
+        graphs.append(g)
+        return g
+    I.models[ir.Graph] = m_graph
+    fns = []
+
+    def m_function(interp, domain, name, overload="", graph=None, attributes=()):
+        f = SObj(ir.Function, "new_function")
+
+        def ident():
+            raise AssertionError
+        interp.models[ident] = lambda i2: (domain, name, overload)
+        f.fields.update(domain=domain, name=name, overload=overload, graph=graph, identifier=ident)
+        fns.append(f)
+        return f
+    I.models[ir.Function] = m_function
+    I.models[convenience.replace_nodes_and_values] = lambda interp, root, ip, old, new, ov, nv: [root.replace(o, new) for o in old] and None
+    I.models[rr.convenience.replace_nodes_and_values] = I.models[convenience.replace_nodes_and_values]
+    I.models[onnxscript.optimizer.basic_constant_propagation] = lambda interp, ns: None
+    I.models[rr._default_metadata_merger.copy_merged_metadata] = lambda interp, a, b: None
+    if kind == "function":
+        orig_isinstance = I.models[isinstance]
+        I.models[isinstance] = lambda interp, v, cls: (True if (v is container and cls is ir.Function) else orig_isinstance(interp, v, cls))
+    try:
+        I.run_closure(I.closure_of(rr.RewriteRuleSet._apply_to_graph_or_function), [rs, model, container], {"verbose": None})
+    except PyRaise as e:
+        ctx.check("C07.as_function.apply_never_raises", False, CL)
+        return
+    ok = len(fns) == 1 and len(graphs) == 1 and fns[0].fields["graph"] is graphs[0]
+    ctx.check("C07.as_function.one_function_is_built_from_the_matched_nodes", ok and len(copied) == 1 and copied[0][1] == [n0, n1],
+              CL_INIT + " — the copied nodes are the matched nodes in graph order")
+    if not ok:
+        return
+    f = fns[0]
+    ctx.check("C07.as_function.function_registered_under_a_fresh_identifier_and_the_call_node_names_it",
+              model.fields["functions"].get(("new.domain", "Fused", "7")) is f and call_node.fields["overload"] == "7" and f.fields["overload"] == "7", CL_INIT)
+    imp = graphs[0].fields["opset_imports"]
+    ctx.check("C07.as_function.function_imports_every_domain_its_nodes_use", "" in imp and "custom" in imp,
+              "C07: 'the opset imports and functions the replacement needs are added' / C04: 'every domain used has an opset import' — a function without "
+              "an import for the default domain is rejected by the checker")
+    if "" in imp and "custom" in imp:
+        want_default = v_cont if kind == "function" else v_main
+        ctx.check("C07.as_function.function_uses_the_versions_in_force_where_the_nodes_were", z3.And(term(imp[""]) == want_default, term(imp["custom"]) == v_cust), CL_INIT)
+
+
+SCENARIOS.append(Scenario("C07.as_function.apply", s_apply_as_function, F("RewriteRuleSet._apply_to_graph_or_function"),
+                          trusted=["_copy_for_function copies the given nodes (its own contract is not stated)", "ir.Graph / ir.Function constructors (onnx_ir)"]))
